@@ -58,15 +58,19 @@ def union_no_overlap(events1: List[Event], events2: List[Event]) -> List[Event]:
 
         if e1_p.intersects(e2_p):
             if e1.timestamp <= e2.timestamp:
-                events_union.append(e1)
-                e1_i += 1
-
-                # If e2 continues after e1, we need to split up the event so we only get the part that comes after
-                _, e2_next = _split_event(e2, e1.timestamp + e1.duration)
-                if e2_next:
-                    events2[e2_i] = e2_next
+                e1_end = e1.timestamp + e1.duration
+                if e1_end <= e2.timestamp:
+                    # e2 only touches the end of e1, nothing of it is covered
+                    events_union.append(e1)
+                    e1_i += 1
                 else:
-                    e2_i += 1
+                    # Drop the part of e2 covered by e1. e1 stays current since it might cover later events too.
+                    # If e2 continues after e1, we need to split up the event so we only get the part that comes after
+                    _, e2_next = _split_event(e2, e1_end)
+                    if e2_next:
+                        events2[e2_i] = e2_next
+                    else:
+                        e2_i += 1
             else:
                 e2_next, e2_next2 = _split_event(e2, e1.timestamp)
                 events_union.append(e2_next)
